@@ -416,11 +416,70 @@ proof! {
 	}
 }
 
+proof! {
+	[secp, hash_mix, sort] fn block_validate_sound() {
+		// Block::validate == Ok on the smallest block (no inputs, one output, one kernel, any
+		// features)  =>  the output's range proof and the kernel's signature were handed to the
+		// verifier and are valid; outputs - REWARD == kernel excess with the header's offset
+		// minus the previous one as offset; and the coinbase-flagged output minus (REWARD + fees)
+		// equals the coinbase-flagged kernel: the subsidy is the only new value.
+		// (outside the recorded finding: header offset zero over a non-zero previous offset)
+		#[cfg(kani)]
+		{
+			use grin_core::core::block::{Block, BlockHeader};
+			env::set_chain_type(grin_core::global::ChainTypes::Mainnet);
+			env::set_nrd_enabled(false);
+			let (co, vo, ro) = k::any_elem();
+			let (ck, vk, rk) = k::any_elem();
+			let cb_o: bool = nd::any();
+			let (feat, fee) = k::any_features(true);
+			let cb_k = matches!(feat, KernelFeatures::Coinbase);
+			let p: bool = nd::any();
+			let sg: bool = nd::any();
+			let total: u16 = nd::any();
+			let prev: u16 = nd::any();
+			nd::assume(!(total == 0 && prev != 0));
+			let mut header = BlockHeader::default();
+			header.total_kernel_offset = BlindingFactor::from_secret_key(m::key_of(total));
+			let block = Block {
+				header,
+				body: TransactionBody {
+					inputs: Inputs::default(),
+					outputs: vec![Output::new(if cb_o { OutputFeatures::Coinbase } else { OutputFeatures::Plain }, co, k::proof(p))],
+					kernels: vec![TxKernel { features: feat, excess: ck, excess_sig: k::sig(sg) }],
+				},
+			};
+			unsafe {
+				m::SIGS_ASKED = 0;
+				m::PROOFS_ASKED = 0;
+			}
+			let r = block.validate(&BlindingFactor::from_secret_key(m::key_of(prev)));
+			if r.is_ok() {
+				check!(p && sg, "accepted => the range proof and the kernel signature are valid");
+				check!(unsafe { m::SIGS_ASKED } == 1 && unsafe { m::PROOFS_ASKED } == 1, "accepted => both were handed to the verifier");
+				let reward = grin_core::consensus::REWARD as u16;
+				check!(vo.wrapping_sub(reward) == vk, "accepted => outputs - subsidy == kernel excesses (value component)");
+				check!(ro == rk.wrapping_add(total.wrapping_sub(prev)), "accepted => blinding components balance with the header's offset minus the previous one");
+				let claimed = grin_core::consensus::REWARD.wrapping_add(fee) as u16;
+				let (ov, or_) = if cb_o { (vo, ro) } else { (0, 0) };
+				let (kv, kr) = if cb_k { (vk, rk) } else { (0, 0) };
+				check!(ov.wrapping_sub(claimed) == kv && or_ == kr, "accepted => coinbase outputs - (subsidy + fees) == coinbase kernels");
+			}
+			cover!(r.is_ok(), "a block is accepted");
+			cover!(r.is_ok() && total != prev, "accepted with a non-zero block offset");
+			cover!(r.is_err(), "a block is rejected");
+			core::mem::forget(r);
+			core::mem::forget(block);
+		}
+	}
+}
+
 pub const HARNESSES: &[(&str, fn())] = &[
 	("c01::kernel_sums_iff_equation_1_2_1", kernel_sums_iff_equation_1_2_1),
 	("c01::tx_validate_sound", tx_validate_sound),
 	("c01::body_validate_consults_oracles", body_validate_consults_oracles),
 	("c01::block_coinbase_sum", block_coinbase_sum),
+	("c01::block_validate_sound", block_validate_sound),
 	("c01::header_overage_arithmetic", header_overage_arithmetic),
 	("c01::kernel_offset_sum", kernel_offset_sum),
 ];
